@@ -3,7 +3,7 @@ import json, os, re, sys, random
 sys.path.insert(0, os.path.join(os.path.dirname(os.path.abspath(__file__)), "..", "lib"))
 from vlib import *
 
-ALLKEYS = ["i0", "i1", "i2", "i3", "i4", "ib", "f25", "sa", "sb", "sl", "bt", "tk", "fk"]
+ALLKEYS = ["i0", "i1", "i2", "i3", "i4", "ib", "f25", "sa", "sb", "sl", "bt", "tk", "fk", "s7a", "s7b", "s8a", "s8b", "s9a", "s9b"]
 ALIAS = {"f2": "i2", "fm0": "i0", "fb": "ib", "f3": "i3"}
 INTVAL = {"i0": 0, "i1": 1, "i2": 2, "i3": 3, "i4": 4, "ib": 1073741824}
 INTVAL.update({"n%d" % i: i for i in range(1, 41)})
@@ -16,9 +16,11 @@ def prelude(rng, big=False):
     return ("BIGFAMILY = true\n" if big else "") + """local K = {i0 = 0, i1 = 1, i2 = 2, i3 = 3, i4 = 4, ib = 1073741824, f25 = 2.5, sa = "%s", sb = "%s", sl = "%s",
   bt = true, tk = {}, fk = function() end, f2 = 2.0, fm0 = -0.0, fb = 1073741824.0, f3 = 3.0}
 for i = 1, 40 do K["n" .. i] = i end
+do local stem = "%s" K.s7a, K.s7b = stem:sub(1, 6) .. "1", stem:sub(1, 6) .. "2" K.s8a, K.s8b = stem:sub(1, 7) .. "1", stem:sub(1, 7) .. "2"
+   K.s9a, K.s9b = stem:sub(1, 8) .. "1", stem:sub(1, 8) .. "2" K.f1 = 1.0 end
 local V = {v1 = "one", v2 = "two"}
 local VN = {one = "v1", two = "v2"}
-local NAMES = {"i0", "i1", "i2", "i3", "i4", "ib", "f25", "sa", "sb", "sl", "bt", "tk", "fk"}
+local NAMES = {"i0", "i1", "i2", "i3", "i4", "ib", "f25", "sa", "sb", "sl", "bt", "tk", "fk", "s7a", "s7b", "s8a", "s8b", "s9a", "s9b"}
 if BIGFAMILY then NAMES = {"i0", "ib", "f25", "sa", "tk"} for i = 1, 40 do NAMES[#NAMES + 1] = "n" .. i end end
 local function nameof(key) for _, nm in ipairs(NAMES) do if rawequal(K[nm], key) then return nm end end return "?" end
 local function ty(k) return math.type(k) or type(k) end
@@ -34,6 +36,7 @@ local function trav(step, pol)
     n = n + 1
     emit("visit", step, nameof(k), ty(k), VN[v])
     if pol == "update" then t[k] = V.v2
+    elseif pol == "rawupdate" then rawset(t, k, V.v2)
     elseif pol == "clear" then t[k] = nil
     elseif pol == "updateothers" then
       for _, nm in ipairs(NAMES) do if rawget(t, K[nm]) ~= nil and not rawequal(K[nm], k) then t[K[nm]] = V.v2 end end
@@ -46,7 +49,7 @@ local function trav(step, pol)
   if pol == "clearothers" and first ~= nil then t[first] = nil end
   emit("travend", step, n)
 end
-""" % (sa, sb, sl)
+""" % (sa, sb, sl, sl[:8])
 
 
 def render(line, rng, spell):
@@ -68,6 +71,7 @@ def render(line, rng, spell):
     for s in spell:
         out.append('emit("final", "%s", VN[rawget(t, K.%s)])' % (s, s))
     out.append('for k, v in pairs(t) do emit("fkey", nameof(k), ty(k), VN[v]) end')
+    out.append('do local bad = 0 for _, a in ipairs(NAMES) do for _, b in ipairs(NAMES) do if K[a] ~= nil and K[b] ~= nil and (K[a] == K[b]) ~= (a == b) then bad = bad + 1 end end end emit("eqbad", bad) end')
     out.append('emit("flen", #t)')
     return "\n".join(out) + "\n"
 
@@ -140,6 +144,9 @@ def check_line(line, o, spell, norm):
             return {"kind": "final-pairs", "detail": "pairs value for %s = %s, model %s" % (e[1], e[3], line["final"][e[1]])}
         if e[1] in INTVAL and e[2] != "integer":
             return {"kind": "key-normalisation", "detail": "integer-valued key reported as %s" % e[2]}
+    eb = [e for e in evs if e[0] == "eqbad"]
+    if len(eb) != 1 or int(eb[0][1]) != 0:
+        return {"kind": "value-equality", "detail": "%s pairs of distinct keys compare equal (or equal keys compare different)" % (eb[0][1] if eb else "?")}
     fl = [e for e in evs if e[0] == "flen"]
     if len(fl) != 1 or int(fl[0][1]) not in line["borders"]:
         return {"kind": "border", "detail": "final #t = %s, borders are %s" % (fl, line["borders"])}
@@ -147,13 +154,14 @@ def check_line(line, o, spell, norm):
 
 
 CONFIGS = {
-    "quick": [("TableIntQ.cfg", None, 2), ("TableMixQ.cfg", None, 2), ("TableSim.cfg", "num=300", 1), ("TableBigSim.cfg", "num=80", 1)],
-    "thorough": [("TableIntT.cfg", None, 3), ("TableMixT.cfg", None, 3), ("TableSim.cfg", "num=6000", 2), ("TableBigSim.cfg", "num=3000", 2)],
+    "quick": [("TableIntQ.cfg", None, 2), ("TableMixQ.cfg", None, 2), ("TableStrQ.cfg", None, 1), ("TableSim.cfg", "num=300", 1), ("TableBigSim.cfg", "num=80", 1)],
+    "thorough": [("TableIntT.cfg", None, 3), ("TableMixT.cfg", None, 3), ("TableStrQ.cfg", None, 3), ("TableSim.cfg", "num=6000", 2), ("TableBigSim.cfg", "num=3000", 2)],
 }
 
 FAM = {"Int": (["i0", "i1", "i2", "i3", "i4", "ib"], {"f2": "i2", "fm0": "i0", "fb": "ib"}),
        "Mix": (["i1", "i2", "f25", "sa", "sl", "bt", "tk", "fk"], {"f2": "i2"}),
        "All": (ALLKEYS, ALIAS),
+       "Str": (["s7a", "s7b", "s8a", "s8b", "s9a", "s9b", "sa", "i1"], {"f1": "i1"}),
        "Big": (["n%d" % i for i in range(1, 41)] + ["i0", "ib", "f25", "sa", "tk"], {"f2": "n2", "fm0": "i0", "fb": "ib", "f3": "n3"})}
 
 
